@@ -178,6 +178,8 @@ def _evb(c, env) -> bool:
         return any(_evb(a, env) for a in c.args)
     if isinstance(c, sympy.Not):
         return not _evb(c.args[0], env)
+    if isinstance(c, sympy.ITE):
+        return _evb(c.args[1], env) if _evb(c.args[0], env) else _evb(c.args[2], env)
     if isinstance(c, sympy.core.relational.Relational):
         a = _ev(c.lhs, env)
         b = _ev(c.rhs, env)
